@@ -155,6 +155,12 @@ pub enum Expr {
         expr: Box<Expr>,
         ty: goty::GoType,
     },
+    /// `s[:len(s):len(s)]`: the slice `s` with no spare capacity, so that appending to it
+    /// never writes into storage another slice can see
+    ClippedSlice {
+        slice: Box<Expr>,
+        ty: goty::GoType,
+    },
     StructLiteral {
         fields: Vec<(String, Expr)>,
         ty: goty::GoType,
@@ -187,6 +193,7 @@ impl Expr {
             | Expr::FieldAccess { ty, .. }
             | Expr::Index { ty, .. }
             | Expr::Cast { ty, .. }
+            | Expr::ClippedSlice { ty, .. }
             | Expr::StructLiteral { ty, .. }
             | Expr::ArrayLiteral { ty, .. }
             | Expr::Block { ty, .. } => ty,
